@@ -161,6 +161,7 @@ static std::string cmd_progd(const std::vector<std::string> &args)
   out += " dbg=" + dump_image(&ctx->memory, true);
   out += " syms=" + dump_symbols(ctx);
   out += " p1=" + p1;
+  if (opts.find('L') != std::string::npos) { out += " lines=" + dump_lines(&ctx->memory); }
   delete ctx;
   return out;
 }
